@@ -8,9 +8,14 @@ ID = 'C06'
 GENS = ['units']
 TARGETS = ['BC.Props.C06']
 PROP_FILES = ['BC/Props/C06.lean']
+# the rounded interpretation (BC/Rounded.lean): the 'few ulps' clause as a theorem over the REGENERATED chains under the standard model of
+# floating-point arithmetic; built and audited as its own module
+SRC = {'module': 'BC.Props.C06Rounded', 'file': 'BC/Props/C06Rounded.lean', 'lemma_files': ['BC/Rounded.lean'], 'funcs': False, 'kind': 'theorem',
+       'theorems': ['C06_round_trip_rounded']}
 THEOREMS = ['C06_dim_consistent', 'C06_si_ratio', 'C06_angular_linear', 'C06_tangent', 'C06_temperature',
             'C06_round_trip', 'C06_raw_stable', 'C06_transitive']
 STATEMENTS = {
+    'C06_round_trip_rounded': 'ROUNDED ARITHMETIC (interpretation E): for ANY rounding of relative error u < 1 applied after every operation and to every literal (standard model of floating point; binary64 u = 2^-53), converting a value to any of the 31 units of Distance/Energy/Pressure/Velocity/Weight and back over the regenerated chains returns x(1+e) with |e| <= (1+u)^4 - 1 (at most four roundings: within a few ulps)',
     'C06_dim_consistent': 'a dimension class converts exactly the units Unit.__call__ routes to it; every other unit is an error',
     'C06_si_ratio': 'forall d in the 5 multiplicative dimensions, u v x: conv d u v x = some y -> |y - x*SI u/SI v| <= 1e-6*|x*SI u/SI v|',
     'C06_angular_linear': 'for the 7 linear angular units within one turn: stored radian value = x*SI u exactly, read-back = r/SI u',
